@@ -32,6 +32,7 @@ func (c redCase) key() string {
 	return fmt.Sprintf("%s|%s|%s|%s|%v", c.Version, c.Type, harness.J(c.Content), harness.J(c.Extra), c.NoSK)
 }
 
+var k3 = evgen.NewKey("c.org", "ed25519:3", 3)
 var k1 = evgen.NewKey("a.org", "ed25519:1", 1)
 var k2 = evgen.NewKey("b.org", "ed25519:x_y", 2)
 
@@ -80,6 +81,14 @@ func sameKeys(v *refjson.Value, want []string) string {
 		}
 	}
 	return ""
+}
+
+// parseUntrustedIf keeps the co-sign chain to the cases where it adds something (it does not depend on the content subset).
+func parseUntrustedIf(cond bool, ver gmsl.IRoomVersion, in []byte) (gmsl.PDU, error) {
+	if !cond {
+		return nil, nil
+	}
+	return ver.NewEventFromUntrustedJSON(in)
 }
 
 func check(r *harness.Run, c redCase) error {
@@ -166,6 +175,29 @@ func check(r *harness.Run, c redCase) error {
 	if rv2 == nil || !refjson.Equal(rv2, want) {
 		return fmt.Errorf("second PDU.Redact changed the event")
 	}
+	// the same through an event that arrived over federation and was co-signed before being redacted (invite / restricted
+	// join flows): Redact() must act on the event as it is now, co-signature included
+	if pu, uerr := parseUntrustedIf(len(c.Content) <= 1 || len(c.Extra) > 0, ver, in); uerr == nil && pu != nil && !pu.Redacted() {
+		var co gmsl.PDU
+		if p, msg := harness.Try(func() { co = pu.Sign(k3.Server, gmsl.KeyID(k3.KeyID), k3.Priv) }); p {
+			return fmt.Errorf("Sign panics on an event parsed from untrusted JSON: %s", msg)
+		}
+		wantRed, rerr := ver.RedactEventJSON(co.JSON())
+		if rerr != nil {
+			return fmt.Errorf("RedactEventJSON fails on the co-signed event: %v", rerr)
+		}
+		co.Redact()
+		gv, _, _ := refjson.Parse(co.JSON())
+		wv, _, _ := refjson.Parse(wantRed)
+		if gv == nil || wv == nil || !refjson.Equal(gv, wv) {
+			return fmt.Errorf("untrusted parse, Sign, Redact gives %s but RedactEventJSON of the co-signed event gives %s", co.JSON(), wantRed)
+		}
+		for _, k := range []evgen.Key{k1, k2, k3} {
+			if e := gmsl.VerifyJSON(k.Server, gmsl.KeyID(k.KeyID), k.Pub, co.JSON()); e != nil {
+				return fmt.Errorf("after untrusted parse, Sign, Redact the signature of %s no longer verifies: %v", k.Server, e)
+			}
+		}
+	}
 	// non-trivial: something was removed and something kept
 	if len(evgen.Get(want, "content").Members) > 0 && len(evgen.Get(inV, "content").Members) > len(evgen.Get(want, "content").Members) {
 		r.Nontrivial(c.key())
@@ -176,7 +208,7 @@ func check(r *harness.Run, c redCase) error {
 func main() { harness.Main("C05", "model_checking", run) }
 
 func run(r *harness.Run) {
-	r.Rule("every protected event type + 2 unprotected types x every subset of <= K content keys from the union of all versions' keep-lists plus junk/nested keys (each with a value from a typed menu incl. 2^53-1, null, nested objects/arrays, strings needing escapes) x all 16 room versions; and every subset of 8 extra top-level keys per type. Oracle: value equality with refredact (spec tables), keep-list membership, idempotence, identity fields and hashed event ID (vs refevent) unchanged, PDU.Redact agreement, both signatures still verify (real VerifyJSON). Non-trivial = distinct case where redaction both kept and removed content.")
+	r.Rule("every protected event type + 2 unprotected types x every subset of <= K content keys from the union of all versions' keep-lists plus junk/nested keys (each with a value from a typed menu incl. 2^53-1, null, nested objects/arrays, strings needing escapes) x all 16 room versions; and every subset of 8 extra top-level keys per type. Oracle: value equality with refredact (spec tables), keep-list membership, idempotence, identity fields and hashed event ID (vs refevent) unchanged, PDU.Redact agreement (on a trusted parse, and on an untrusted parse that was co-signed first), all signatures still verify (real VerifyJSON). Non-trivial = distinct case where redaction both kept and removed content.")
 	r.Assume("ed25519 / sha256 trusted", "float-valued and >2^53 numbers in content are outside the property's alphabet")
 	r.OnReplay("red", func(raw json.RawMessage) error {
 		var c redCase
